@@ -410,6 +410,7 @@ PROC_CLASS_PRED = {
     # cls -> (model class, param) given the remaining sleep
     "idle": ("idle", 0), "blocked": ("blocked", 0), "sleep-short": ("sleeping", 10), "sleep-long": ("sleeping", 300),
     "busy": ("busy", 0), "swallow": ("swallow", 0), "extra0": ("extra0", 0), "extra1": ("extra1", 0),
+    "sighandler": ("swallow", 0), "sigign": ("swallow", 0),
     "transfer-in": ("blocked", 0), "transfer-out": ("blocked", 0),
 }
 
@@ -422,12 +423,14 @@ def gen_process_cases(ctx, rng):
             ("popen", "idle", "idle", "kill"), ("popen", "blocked", "mid-exec", "kill"), ("popen", "sleep-short", "mid-exec", "_exit"),
             ("popen", "extra0", "mid-exec", "kill"), ("popen", "transfer-in", "mid-transfer", "kill"),
             ("popen", "idle", "bootstrap", "kill"), ("popen", "blocked", "mid-exec", "close"), ("popen", "busy", "mid-exec", "exit"),
+            # one full ladder on every run (15 s, in parallel with the others): the code under execution took over SIGINT
+            ("popen", "sighandler", "mid-exec", "kill"),
         ]
         for topo, cls, moment, mode in base:
             cases.append(dict(topo=topo, cls=cls, moment=moment, mode=mode, delay=round(rng.uniform(0.0, 0.3), 3)))
         return cases
     topos = ["popen", "via", "socket"] * (3 if ctx.thorough else 1)   # thorough: three draws of delays / skipped modes
-    classes = ["idle", "blocked", "sleep-short", "sleep-long", "busy", "swallow", "extra0", "extra1"]
+    classes = ["idle", "blocked", "sleep-short", "sleep-long", "busy", "swallow", "extra0", "extra1", "sighandler", "sigign"]
     for topo in topos:
         for cls in classes:
             for mode in ("kill", "_exit", "close", "exit"):
@@ -435,7 +438,7 @@ def gen_process_cases(ctx, rng):
                     moment = "idle"
                 else:
                     moment = "mid-exec"
-                if mode in ("close", "exit") and rng.random() < 0.5 and cls not in ("swallow", "busy"):
+                if mode in ("close", "exit") and rng.random() < 0.5 and cls not in ("swallow", "busy", "sighandler"):
                     continue
                 if topo == "socket" and mode == "close":
                     continue  # the socket worker lives inside the popen worker that installed it: no process ends
@@ -604,7 +607,7 @@ class ProcCase(threading.Thread):
 def classify_process(case, name, after):
     """known shape: a worker behind a forwarding gateway sees the end of its connection only when the
     forwarder left through ITS SIGINT rung (5 s), so a KeyboardInterrupt-swallowing body lives 5 s + 15 s"""
-    if case["topo"] == "via" and name == "w" and case["cls"] == "swallow" and case["mode"] in ("kill", "_exit") \
+    if case["topo"] == "via" and name == "w" and case["cls"] in ("swallow", "sighandler", "sigign") and case["mode"] in ("kill", "_exit") \
             and after is not None and after <= BOUND_S + 5.0 + SLACK_S:
         return "C11-via-worker-ladder-starts-after-forwarder-sigint-rung"
     return None
